@@ -131,9 +131,16 @@ def pmap(fn, items, workers: int = None, chunksize: int = None):
     ctx = multiprocessing.get_context("fork")
     if chunksize is None:
         chunksize = max(1, min(64, len(items) // (workers * 8) or 1))
-    with ctx.Pool(workers) as pool:
-        for res in pool.imap(_call, items, chunksize=chunksize):
-            yield res
+    import gc
+
+    gc.collect()
+    gc.freeze()  # the workers' garbage collector must not touch (and thereby copy) the pages of what the master holds
+    try:
+        with ctx.Pool(workers) as pool:
+            for res in pool.imap(_call, items, chunksize=chunksize):
+                yield res
+    finally:
+        gc.unfreeze()
 
 
 # ------------------------------------------------------------------------------------------------
